@@ -178,7 +178,7 @@ def eval_seq(case):
             elif k in RSA_FAMILY:
                 for r in RSA_FAMILY:
                     hk[r] = {'t': 'rsa', 'bits': m['bits']}
-        return fakenet.Server({'kex': ['curve25519-sha256'], 'key': m['keys'], 'hostkeys': hk})
+        return fakenet.Server({'kex': ['curve25519-sha256'], 'key': m['keys'], 'hostkeys': hk, 'latency': bool(case.get('concurrent'))})
 
     def keyview(d):
         return json.dumps({'key': d.get('key'), 'fingerprints': d.get('fingerprints')}, sort_keys=True)
@@ -194,7 +194,16 @@ def eval_seq(case):
         net.add(h, 22, srv(m))
     tf = drive.tmpfile('\n'.join(hosts) + '\n')
     try:
-        r = drive.run_cli(['-n', '-j', '--skip-rate-test', '--threads', '1', '-T', tf], net)
+        if case.get('concurrent'):
+            # one worker per server, the servers answer with some latency, and the workers advance in lock-step (or in a
+            # generated order): every reply is waited for while the other scans are in the middle of theirs
+            from vlib import sched
+            n = len(hosts)
+            r, sch = sched.run_scheduled(['-n', '-j', '--skip-rate-test', '--threads', str(n), '-T', tf], net, n, n, case.get('choices') or list(range(n)))
+            if r.hang or sch.broken:
+                raise RuntimeError('scheduler made no progress')
+        else:
+            r = drive.run_cli(['-n', '-j', '--skip-rate-test', '--threads', '1', '-T', tf], net)
     finally:
         os.unlink(tf)
     fails = []
@@ -205,7 +214,7 @@ def eval_seq(case):
         for i, h in enumerate(hosts):
             if keyview(docs[h]) != solos[i]:
                 fails.append(['host-key-details-depend-on-servers-audited-before', 'server %d of %r: %s; alone: %s' % (i + 1, case['members'], keyview(docs[h])[:300], solos[i][:300])])
-    return mkres(case, nt=True, classes=['seq', 'n:%d' % len(hosts)], fails=fails[:3])
+    return mkres(case, nt=True, classes=['seq', 'n:%d' % len(hosts)] + (['concurrent'] if case.get('concurrent') else []), fails=fails[:3])
 
 
 def eval_connfail(case):
@@ -333,7 +342,7 @@ def eval_case(case):
         for k in keys:
             bs, size, ca = pool[k]
             truth[k] = {'blob': fakenet.blob_from_spec(bs), 'size': size, 'ca': ca, 'rsa_host': k in RSA_FAMILY or k == RSA_CERTS[0], 'plain': ca is None}
-    spec = {'kex': [case.get('kex', 'curve25519-sha256')], 'key': keys, 'hostkeys': hostkeys, 'moduli': [2048], 'gex_style': 'roundup'}
+    spec = {'kex': [case.get('kex', 'curve25519-sha256')], 'key': keys, 'hostkeys': hostkeys, 'moduli': [2048], 'gex_style': 'roundup', 'chatter': case.get('chatter')}
     fails = []
     bits = case.get('bits')
     for rend in case.get('renderings', ('json', 'text')):
@@ -417,7 +426,7 @@ def eval_case(case):
             fails.append(['fingerprints', '%s: reported %r, expected %r' % (rend, fps, sorted(want_fps))])
     near = bits is not None and (abs(bits - 2048) <= 128 or abs(bits - 3072) <= 128)
     nt = near or kind == 'cert' or len([k for k in keys if k in RSA_FAMILY]) >= 2
-    cl = [kind, 'kex:' + case.get('kex', 'curve25519-sha256')] + (['near-threshold'] if near else []) + (['ca:' + case['ca']['t']] if kind == 'cert' else []) + (['cert-fields:' + case['fields_label']] if case.get('fields') else []) + (['with -d'] if 'debug' in case.get('renderings', ()) else [])
+    cl = [kind, 'kex:' + case.get('kex', 'curve25519-sha256')] + (['near-threshold'] if near else []) + (['ca:' + case['ca']['t']] if kind == 'cert' else []) + (['cert-fields:' + case['fields_label']] if case.get('fields') else []) + (['with -d'] if 'debug' in case.get('renderings', ()) else []) + (['debug-messages-before-replies'] if case.get('chatter') else [])
     return mkres(case, nt=nt, classes=cl, fails=fails)
 
 
@@ -484,6 +493,10 @@ def run(ctx):
     for a, b, c in _it.permutations([1024, 2048, 3072, 4096], 3):
         seqs.append({'kind': 'seq', 'members': [{'keys': ['rsa-sha2-512', 'ssh-rsa'], 'ca': seq_cas[0], 'bits': a}, {'keys': ['ssh-rsa'], 'ca': seq_cas[0], 'bits': b}, {'keys': [RSA_CERTS[0], 'rsa-sha2-256'], 'ca': seq_cas[2], 'bits': c}]})
     cases += seqs
+    # the same sequences scanned concurrently (see eval_seq)
+    for i, sq in enumerate(seqs):
+        if i % 2 == 0 or not ctx.quick:
+            cases.append(dict(sq, concurrent=True, choices=None if i % 4 == 0 else [ctx.rng.randint(0, 2) for _ in range(30)]))
     pf = []
     pf_pool = ['ssh-ed25519', 'ssh-ed448', 'ecdsa-sha2-nistp256', ED_CERT, RSA_CERTS[0], 'rsa-sha2-512', 'ssh-rsa']
     for n in (2, 3):
@@ -525,6 +538,14 @@ def run(ctx):
     for b in (1024, 2047, 2048, 3071, 3072, 4096, 8192, 14272, 14336, 15360, 16384):
         cases.append({'kind': 'rsa', 'bits': b, 'keys': ['rsa-sha2-512', 'ssh-rsa'], 'renderings': ['debug', 'json-debug']})
         cases.append({'kind': 'cert', 'inner': 'rsa', 'bits': b, 'ca': {'t': 'rsa', 'bits': b}, 'keys': [RSA_CERTS[0]], 'renderings': ['debug', 'json-debug']})
+    # servers that send debug messages in front of their key-exchange replies (legal at any time)
+    for n in (1, 2, 7):
+        for kx in ('curve25519-sha256', 'diffie-hellman-group14-sha256', 'diffie-hellman-group-exchange-sha256', 'ecdh-sha2-nistp256'):
+            ch = {'kexdh_reply': n, 'gex_reply': n, 'gex_group': n % 2}
+            cases.append({'kind': 'rsa', 'bits': [1024, 2048, 3072][n % 3], 'keys': ['rsa-sha2-512', 'ssh-rsa'], 'kex': kx, 'chatter': ch})
+            cases.append({'kind': 'ed', 'keys': ['ssh-ed25519'], 'kex': kx, 'chatter': ch})
+            cases.append({'kind': 'cert', 'inner': 'rsa', 'bits': 3072, 'ca': {'t': 'rsa', 'bits': [1024, 2048, 4096][n % 3]}, 'keys': [RSA_CERTS[0]], 'kex': kx, 'chatter': ch})
+            cases.append({'kind': 'cert', 'inner': 'ed25519', 'ca': {'t': 'ecdsa', 'curve': 'nistp384'}, 'keys': [ED_CERT], 'kex': kx, 'chatter': ch})
     # a follow-up connection that fails before its key exchange, after other keys have been measured
     cf = []
     cf_pool = ['ssh-ed25519', 'ssh-ed448', ED_CERT, RSA_CERTS[0], 'rsa-sha2-512', 'ssh-rsa']
